@@ -263,7 +263,7 @@ void ExecImpl::step(const Op& op, bool nested) {
   X(p_saturated_nomatch) X(p_seq_mismatch) X(p_passed_entry) X(p_release_unfulfilled) X(p_release_named) \
   X(p_moved_mock_call) X(p_seq_destroy_nonempty) X(p_monitor_ok) X(p_monitor_unexpected) X(p_monitor_still_alive) \
   X(p_monitor_seq_violation) X(p_with_rejects) X(p_lr_differs) X(p_trace_records) X(p_ok_reports) X(p_rt_inverted) \
-  X(p_multi_monitor) X(p_assign_watched) X(p_seq_taken_over) X(p_watched_mock_death) X(p_ok_reporter_op) X(p_call_in_handler) X(p_call_in_unwinding) X(p_tracer_op) X(p_seq_handed_back) X(flag_observations)
+  X(p_multi_monitor) X(p_assign_watched) X(p_seq_taken_over) X(p_watched_mock_death) X(p_ok_reporter_op) X(p_call_in_handler) X(p_call_in_unwinding) X(p_tracer_op) X(p_seq_handed_back) X(p_seq_self_assigned) X(flag_observations)
 
 void Stats::add(const Stats& o) {
   for (int i = 0; i < OP_KIND_COUNT; ++i) ops[i] += o.ops[i];
